@@ -507,14 +507,15 @@ def mixed_case(rec, kid, sub, shape):
         rec.finding('foreign', 're-export-differs/' + shape, case, '')
 
 
-def gnu_dummy_case(rec, kid):
+def gnu_dummy_case(rec, kid, old_style=False):
     import pgpy
     a, c_, params, secret, curve, kdf = keypool.numbers(kid)
     pubblob = keypool.ref_cert(kid, secret=False)
     pk = wire.split_packets(pubblob)
-    blob = wire.build_packet(5, rkeys.build_gnu_dummy_body(a, c_, params, curve, kdf)) + pk[1].raw + pk[2].raw
-    case = {'kind': 'gnu-dummy', 'kid': kid}
-    rec.case(('gnu-dummy', kid), True, ['foreign/gnu-dummy'], {'key': kid, 'form': 'GNU-dummy S2K (no secret material)'})
+    # old_style: the form GnuPG 1.4 / 2.0 write -- the cipher and hash octets keep the ids the key was protected with (FE 03 65 02 'GNU' 01)
+    blob = wire.build_packet(5, rkeys.build_gnu_dummy_body(a, c_, params, curve, kdf, **({'halg': 2, 'sym': 3} if old_style else {}))) + pk[1].raw + pk[2].raw
+    case = {'kind': 'gnu-dummy', 'kid': kid, 'old_style': old_style}
+    rec.case(('gnu-dummy', kid, old_style), True, ['foreign/gnu-dummy' + ('/hash-and-cipher-octets-set' if old_style else '')], {'key': kid, 'form': 'GNU-dummy S2K (no secret material)', 'gnupg_1_4_style': old_style})
     try:
         key = pgpy.PGPKey.from_blob(blob)[0]
         if not key.is_protected:
@@ -609,6 +610,7 @@ def w_foreign(arg):
             foreign_case(rec, kid, SUBS[j], 254, 'iterated', 9, 8, mixed=True)
             foreign_case(rec, kid, SUBS[j], [254, 255][j % 2], 'iterated', [9, 7, 3, 13][j], [8, 2, 10, 1][j], longpw=True)
             gnu_dummy_case(rec, kid)
+            gnu_dummy_case(rec, kid, old_style=True)
             plain_sub_case(rec, kid, SUBS[j])
             for shape in ('plain-primary', 'dummy-primary', 'reprotect'):
                 mixed_case(rec, kid, SUBS[j], shape)
@@ -634,7 +636,7 @@ def replay(case):
     if case.get('kind') == 'foreign':
         foreign_case(rec, case['kid'], case['sub'], case['usage'], case['spec'], case['cipher'], case['hash'], case.get('mixed', False), case.get('longpw', False))
     elif case.get('kind') == 'gnu-dummy':
-        gnu_dummy_case(rec, case['kid'])
+        gnu_dummy_case(rec, case['kid'], case.get('old_style', False))
     elif case.get('kind') == 'mixed':
         mixed_case(rec, case['kid'], case['sub'], case['shape'])
     elif case.get('kind') == 'collision':
